@@ -27,6 +27,7 @@ type scItem struct {
 	Tb    int    `json:"tb"`
 	Colon bool   `json:"colon"`
 	SelfW bool   `json:"selfw"`
+	InFn  bool   `json:"infn"`
 	// as-built alternatives attached by TLC (-1 = deviation does not apply): binding predicted for slot u / n / t
 	Alt  *scAlt `json:"alt"`
 	Altn *scAlt `json:"altn"`
